@@ -10,7 +10,7 @@ theorem parseSplit_inv (env : Env) (sp : Split) (P : Parsed) (h : parseSplit env
     ((userinfo sp.netloc).1.getD []).length = 0 ∧ ((userinfo sp.netloc).2.getD []).length = 0 ∧
     sp.fragment = [] ∧ (∃ port?, portOf sp.netloc = .ok port? ∧ P.port = port?.getD 1965) ∧
     P.path = (if sp.path.isEmpty then ['/'] else sp.path) ∧ P.query = sp.query ∧
-    P.normalized = unsplit gemini (authorityOf (rebracket P.host) P.port) P.path sp.query [] := by
+    P.normalized = unsplit gemini (authorityOf (rebracket sp.netloc P.host) P.port) P.path sp.query [] := by
   unfold parseSplit at h
   split at h
   · simp at h
@@ -144,7 +144,7 @@ theorem rsplitOnce_none_notMem {c : Char} {s : Str} (h : rsplitOnce c s = none) 
 theorem bracket_raw {nl : Str} (hb : '[' ∈ nl)
     (hu1 : ((userinfo nl).1.getD []).length = 0) (hu2 : ((userinfo nl).2.getD []).length = 0) :
     bracketed nl = (hostinfo nl).hostRaw ∧
-    (∀ c ∈ (hostinfo nl).hostRaw, c ∈ nl ∧ c ≠ '@' ∧ c ≠ ']') := by
+    (∀ c ∈ (hostinfo nl).hostRaw, c ∈ nl ∧ c ≠ '@' ∧ c ≠ ']') ∧ '[' ∈ hostPart nl := by
   cases hr : rsplitOnce '@' nl with
   | none =>
     have hat := rsplitOnce_none_notMem hr
@@ -152,7 +152,7 @@ theorem bracket_raw {nl : Str} (hb : '[' ∈ nl)
     have e1 := hostinfo_raw_of_bracket hat hs
     obtain ⟨e, _⟩ := splitOnce_spec hs
     obtain ⟨s1, s2⟩ := hostRawB_spec b
-    refine ⟨?_, ?_⟩
+    refine ⟨?_, ?_, ?_⟩
     · rw [e1]; unfold bracketed hostRawB; simp only [hs]
       cases splitOnce ']' b with
       | none => rfl
@@ -161,6 +161,7 @@ theorem bracket_raw {nl : Str} (hb : '[' ∈ nl)
       rw [e1] at hc
       have hcn : c ∈ nl := by rw [e]; simp [s1 c hc]
       exact ⟨hcn, fun h => hat (h ▸ hcn), fun h => s2 (h ▸ hc)⟩
+    · unfold hostPart; rw [hr]; exact hb
   | some uh =>
     obtain ⟨ui, hi⟩ := uh
     obtain ⟨e, hat⟩ := rsplitOnce_spec hr
@@ -202,7 +203,7 @@ theorem bracket_raw {nl : Str} (hb : '[' ∈ nl)
       rw [e, e3]
       simpa using this
     rw [hostinfo_after_at hr]
-    refine ⟨?_, ?_⟩
+    refine ⟨?_, ?_, ?_⟩
     · rw [e1]; unfold bracketed hostRawB; simp only [hsnl]
       cases splitOnce ']' b with
       | none => rfl
@@ -212,6 +213,7 @@ theorem bracket_raw {nl : Str} (hb : '[' ∈ nl)
       have hch : c ∈ hi := by rw [e3]; simp [s1 c hc]
       have hcn : c ∈ nl := by rw [e]; simp [hch]
       exact ⟨hcn, fun h => hat (h ▸ hch), fun h => s2 (h ▸ hc)⟩
+    · unfold hostPart; rw [hr]; exact hbh
 
 def Special3 (c : Char) : Prop := isDelim c = true ∨ c = '@' ∨ c = ']' ∨ isUnsafe c = true
 
@@ -250,11 +252,9 @@ theorem normHost_chars3 (env : Env) (hl0 : AsciiLower env) (h : Str)
     · exact ⟨by unfold Special3; decide, by decide⟩
     · exact hc c (by rw [e]; simp [hcm])
 
-/-- **C19 for bracketed ASCII authorities.**  `hshape` excludes exactly the accepted inputs on which the
-    current code loses information: an IPvFuture literal without `:` (brackets are dropped) that contains `[`. -/
+/-- **C19 for bracketed ASCII authorities**: the host stays bracketed, whatever stands between the brackets -/
 theorem norm_idem_bracket (env : Env) (hl : AsciiLower env) (hip : IpStable env) (u : Str) (P : Parsed) (sp : Split)
     (hsp : urlsplit env u = .ok sp) (hascii : ∀ c ∈ sp.netloc, c.toNat < 128) (hb : '[' ∈ sp.netloc)
-    (hshape : ':' ∈ P.host ∨ '[' ∉ P.host)
     (h : parseUrl env u = .ok P) : parseUrl env P.normalized = .ok P := by
   have hsplit : parseSplit env sp = .ok P := by
     unfold parseUrl at h
@@ -264,7 +264,7 @@ theorem norm_idem_bracket (env : Env) (hl : AsciiLower env) (hip : IpStable env)
   have hok := urlsplit_spec env u sp hsp
   obtain ⟨_, hhost, hu1, hu2, _, ⟨port?, hport, hpe⟩, hp, hq, hnorm⟩ := parseSplit_inv env sp P hsplit
   obtain ⟨hrawne, hhosteq⟩ := hostname_eq_normHost env sp.netloc P.host hhost
-  obtain ⟨hbr, hrawc⟩ := bracket_raw hb hu1 hu2
+  obtain ⟨hbr, hrawc, hbhp⟩ := bracket_raw hb hu1 hu2
   have hnlne : sp.netloc ≠ [] := by intro he; rw [he] at hb; simp at hb
   have ht : PlainTail P.path P.query := by rw [hp, hq]; exact tail_plain sp hok hnlne
   have hn : P.port ≤ 65535 := by rw [hpe]; exact portOf_le _ _ hport
@@ -292,46 +292,23 @@ theorem norm_idem_bracket (env : Env) (hl : AsciiLower env) (hip : IpStable env)
   have hne : P.host ≠ [] := by rw [hhosteq]; exact normHost_ne_nil env hl _ hrawne
   have hqe : P.query = sp.query := hq
   rw [← hqe] at hnorm
-  by_cases hcol : ':' ∈ P.host
-  · -- stays bracketed
-    have hH : BrHost env P.host := by
-      refine ⟨hne, ?_, hfixed, ?_⟩
-      · intro c hc
-        obtain ⟨h1, h2⟩ := hhost3 c hc
-        obtain ⟨a, b, c', f⟩ := not_special3 h1
-        exact ⟨a, b, c', h2, f⟩
-      · rw [hhosteq]; exact hip _ hipraw
-    have hrb : rebracket P.host = brk P.host := by
-      unfold rebracket brk
-      rw [if_pos (contains_true hcol)]
-    have hnl : authorityOf (brk P.host) P.port ≠ [] := by rw [brAuth_form]; simp
-    rw [hrb, unsplit_assemble hnl ht.slash] at hnorm
-    rw [hnorm, parse_canonical_br env hH hcol P.port hn ht]
-    congr 1
-    cases P
-    simp only at hnorm ⊢
-    rw [hnorm]
-  · -- brackets dropped: an un-bracketed reg-name
-    have hnb : '[' ∉ P.host := by
-      rcases hshape with h1 | h1
-      · exact absurd h1 hcol
-      · exact h1
-    have hH : PlainHost env P.host := by
-      refine ⟨hne, ?_, hfixed⟩
-      intro c hc
+  have hH : BrHost env P.host := by
+    refine ⟨hne, ?_, hfixed, ?_⟩
+    · intro c hc
       obtain ⟨h1, h2⟩ := hhost3 c hc
       obtain ⟨a, b, c', f⟩ := not_special3 h1
-      exact ⟨a, b, fun hh => hcol (hh ▸ hc), fun hh => hnb (hh ▸ hc), c', h2, f⟩
-    have hnl : authorityOf P.host P.port ≠ [] := by
-      unfold authorityOf; split
-      · simp
-      · exact hne
-    rw [rebracket_plain hcol, unsplit_assemble hnl ht.slash] at hnorm
-    rw [hnorm, parse_canonical env hH P.port hn ht]
-    congr 1
-    cases P
-    simp only at hnorm ⊢
-    rw [hnorm]
+      exact ⟨a, b, c', h2, f⟩
+    · rw [hhosteq]; exact hip _ hipraw
+  have hrb : rebracket sp.netloc P.host = brk P.host := by
+    unfold rebracket brk
+    rw [if_pos (contains_true hbhp)]
+  have hnl : authorityOf (brk P.host) P.port ≠ [] := by rw [brAuth_form]; simp
+  rw [hrb, unsplit_assemble hnl ht.slash] at hnorm
+  rw [hnorm, parse_canonical_br env hH P.port hn ht]
+  congr 1
+  cases P
+  simp only at hnorm ⊢
+  rw [hnorm]
 
 /-- the host name of an accepted URL with an ASCII authority contains no TAB, CR or LF -/
 theorem host_safe_ascii (env : Env) (hl : AsciiLower env) (u : Str) (P : Parsed) (sp : Split)
@@ -346,7 +323,7 @@ theorem host_safe_ascii (env : Env) (hl : AsciiLower env) (u : Str) (P : Parsed)
   by_cases hb : '[' ∈ sp.netloc
   · obtain ⟨_, hhost, hu1, hu2, _, _, _, _, _⟩ := parseSplit_inv env sp P hsplit
     obtain ⟨_, hhosteq⟩ := hostname_eq_normHost env sp.netloc P.host hhost
-    obtain ⟨_, hrawc⟩ := bracket_raw hb hu1 hu2
+    obtain ⟨_, hrawc, _⟩ := bracket_raw hb hu1 hu2
     have hraw3 : ∀ c ∈ (hostinfo sp.netloc).hostRaw, ¬ Special3 c ∧ c.toNat < 128 := by
       intro c hc
       obtain ⟨hcn, h1, h2⟩ := hrawc c hc
@@ -365,10 +342,9 @@ theorem host_safe_ascii (env : Env) (hl : AsciiLower env) (u : Str) (P : Parsed)
 /-- **C19 (`norm_accepted`, `norm_same`, `norm_idem`) for every ASCII authority**, bracketed or not -/
 theorem norm_idem_ascii (env : Env) (hl : AsciiLower env) (hip : IpStable env) (u : Str) (P : Parsed) (sp : Split)
     (hsp : urlsplit env u = .ok sp) (hascii : ∀ c ∈ sp.netloc, c.toNat < 128)
-    (hshape : ':' ∈ P.host ∨ '[' ∉ P.host)
     (h : parseUrl env u = .ok P) : parseUrl env P.normalized = .ok P := by
   by_cases hb : '[' ∈ sp.netloc
-  · exact norm_idem_bracket env hl hip u P sp hsp hascii hb hshape h
+  · exact norm_idem_bracket env hl hip u P sp hsp hascii hb h
   · exact norm_idem_plain env hl u P sp hsp hascii hb h
 
 end Url
